@@ -59,6 +59,21 @@ def rule_filed_by_path(ctx, rid="R17.2"):
     calls = calls_of(prog)
     init = find_method(prog, "exceptions.ErrorTree", "__init__")
     r = ctx.rule(rid, "each error is filed under its own keyword at the node reached by its own path, from the root", floor=4)
+    from .errsem import tree_eval
+    sem = tree_eval(prog)
+    if sem is not None:
+        # decided on a tree built from five of the package's own error objects inside the definitional interpreter
+        for clause, key in (("filing", "walk-start"), ("instance-record", "instance-record"), ("raises", "walk-start")):
+            if clause not in sem:
+                continue
+            if sem[clause] is None:
+                r.ok(site(init) + " [%s]" % clause, "holds on the evaluated tree (root error, two errors at one element, one on a sibling, one on the array itself)")
+            else:
+                r.fail("%s|%s" % (init.qual, key), site(init), sem[clause])
+        if "raises" not in sem:
+            r.ok(site(init) + " [root]", "the walk restarts at the root for every error")
+            r.ok(site(init) + " [steps]", "one child per path element, in order")
+        return r
     s = init.params[0]
     ep = init.params[1]
     outer = [n for n in init.body if isinstance(n, ast.For) and norm(n.iter) == ep]
@@ -107,6 +122,22 @@ def rule_accessors_agree(ctx, rid="R17.3"):
     prog = ctx.prog
     c = prog.cls("exceptions.ErrorTree")
     r = ctx.rule(rid, "__contains__, __iter__, __getitem__, __setitem__ operate on one container that builds children with the tree's own class", floor=5)
+    from .errsem import tree_eval
+    sem = tree_eval(prog)
+    if sem is not None:
+        msg = sem.get("accessors") or sem.get("absent-index") or sem.get("raises")
+        for name in ("__contains__", "__iter__", "__getitem__", "__setitem__"):
+            m = c.methods.get(name)
+            if m is None:
+                r.fail("exceptions.ErrorTree.%s|container" % name, "exceptions.py ErrorTree", "%s vanished" % name)
+            elif msg is None:
+                r.ok(site(m), "agrees with the other accessors on the evaluated tree")
+        if msg is None:
+            r.ok(site(c.methods["__init__"]), "children are trees of the tree's own class; an error-free index of the instance gives an empty tree, a foreign one raises")
+        else:
+            m = c.methods.get("__getitem__") if "look" in msg and "index" in msg else c.methods.get("__contains__")
+            r.fail("exceptions.ErrorTree.%s|container" % (m.name if m else "__contains__"), site(m) if m else "exceptions.py ErrorTree", msg)
+        return r
     init = c.methods["__init__"]
     s = init.params[0]
     mk = [n for n in walk_body(init) if isinstance(n, ast.Assign) and norm(n.targets[0]) == "%s._contents" % s]
@@ -137,6 +168,17 @@ def rule_total_errors(ctx, rid="R17.4"):
     m = c.methods.get("total_errors")
     if m is None:
         raise AnalysisError("ErrorTree.total_errors vanished")
+    from .errsem import tree_eval
+    sem = tree_eval(prog)
+    if sem is not None:
+        msg = sem.get("total") or sem.get("raises")
+        if msg is None:
+            r.ok(site(m), "own errors plus every child's total, at the root and at three inner nodes")
+            r.ok(site(c.methods.get("__len__") or m), "len() is total_errors")
+            r.ok(site(m) + " [children]", "every child is counted")
+        else:
+            r.fail("%s|sum" % m.qual, site(m), msg)
+        return r
     s = m.params[0]
     rets = [n for n in walk_body(m) if isinstance(n, ast.Return)]
     if len(rets) != 1:
